@@ -270,22 +270,6 @@ theorem mkPoints_eq (xs ys : List Int) (fs : List UInt8) :
         simp only [List.map_cons, mkPoints, zip3, ih, wrapPt]
         rw [bit_testBit f flagOnCurve 0 rfl]
 
-theorem range_filterMap_take (l : List α) (n : Nat) :
-    (List.range n).filterMap (fun j => l[j]?) = l.take n := by
-  induction n with
-  | zero => simp
-  | succ n ih =>
-    rw [List.range_succ, List.filterMap_append, ih, List.take_add_one]
-    cases h : l[n]? <;> simp [h]
-
-theorem slicePts_eq (pts : List Pt) (first last : Nat) :
-    slicePts pts first last = (pts.drop first).take (last + 1 - first) := by
-  unfold slicePts
-  rw [← range_filterMap_take]
-  congr 1
-  funext j
-  rw [List.getElem?_drop]
-
 /-- the contour loop succeeds exactly on chains `start ≤ e₁+1 ≤ e₂+1 ≤ … ≤ numPoints` -/
 def chainFrom (np : Nat) : Nat → List Nat → Bool
   | _, [] => true
